@@ -81,7 +81,8 @@ def check_resolution(case, ctx):
     o = case["options"]
     labels = set()
     r = Ref(spec).run(o)
-    if "scalar-section-walk" in r.labels or uses_scalar_section(spec["root"], o):
+    mentioned = specgen.mentioned_keys(spec)
+    if "scalar-section-walk" in r.labels or uses_scalar_section(spec["root"], o) or any(is_scalar_section(o, k) for k in mentioned):
         if "no-scalar-section" in ctx.flags:
             ctx.exclude("no-scalar-section")
             ctx.done(case, False, ["excluded-K4"])
@@ -403,7 +404,7 @@ def set_cases(draw):
 
 
 PARTS = [
-    Part("resolution", check_resolution, strategy=lambda ctx: resolution_cases(), budget={"quick": 500, "thorough": 6000}),
-    Part("namespace", check_namespace, strategy=lambda ctx: namespace_cases(), budget={"quick": 80, "thorough": 1000}),
+    Part("resolution", check_resolution, strategy=lambda ctx: resolution_cases(), budget={"quick": 1000, "thorough": 6000}),
+    Part("namespace", check_namespace, strategy=lambda ctx: namespace_cases(), budget={"quick": 200, "thorough": 1000}),
     Part("set", check_set, strategy=lambda ctx: set_cases(), budget={"quick": 300, "thorough": 3000}),
 ]
